@@ -73,3 +73,147 @@ benign('B-if-else-for-then-some', ['C02'], [
             None
         }"""),
 ])
+
+T = 'src/tx_dependency.rs'
+mutant('V2-fetch_min-before-clearing-blocker', ['C16'], [
+    (T, """                if dependent.onboard {
+                    if pop_next && tx == txid + 1 && self.index.load(Ordering::Relaxed) > tx {""",
+        """                if dependent.onboard {
+                    if pop_next && tx == txid + 1 && self.index.load(Ordering::Relaxed) > tx {"""),
+    (T, """            let mut state = self.dependent_state[next].lock();
+            if state.onboard {
+                state.dependency = None;
+                self.index.fetch_min(next, Ordering::Relaxed);
+            }""", """            self.index.fetch_min(next, Ordering::Relaxed);
+            let mut state = self.dependent_state[next].lock();
+            if state.onboard {
+                state.dependency = None;
+            }"""),
+], ['|V2|', '|V1|'])
+mutant('V1-drop-stale-edge-recheck', ['C16'], [
+    (T, "            if dependent.dependency == Some(txid) {\n                dependent.dependency = None;", "            if dependent.dependency.is_some() {\n                dependent.dependency = None;"),
+], ['|V1|'])
+mutant('V3-cursor-read-outside-DS', ['C16'], [
+    (T, "        let mut state = self.dependent_state[txid].lock();\n        if txid > commit_idx.get() {", "        let committed = commit_idx.get();\n        let mut state = self.dependent_state[txid].lock();\n        if txid > committed {"),
+], ['|V1|'])
+mutant('V1-commit-does-not-release', ['C16'], [
+    (T, "                state.dependency = None;\n                self.index.fetch_min(next, Ordering::Relaxed);\n            }\n        }\n    }\n\n    /// Hold", "                self.index.fetch_min(next, Ordering::Relaxed);\n            }\n        }\n    }\n\n    /// Hold"),
+], ['|V1|'])
+mutant('V2-add-none-without-rewind', ['C16'], [
+    (T, "                state.onboard = true;\n                state.dependency = None;\n                self.index.fetch_min(txid, Ordering::Relaxed);", "                state.onboard = true;\n                state.dependency = None;"),
+], ['|V2|'])
+mutant('V1-next-does-not-clear-onboard', ['C16'], [
+    (T, "            state.onboard = false;\n            return Some(index)", "            return Some(index)"),
+], ['|V1|'])
+mutant('V1-handoff-without-claim', ['C16'], [
+    (T, "                        dependent.onboard = false;\n                        next = Some(tx);", "                        next = Some(tx);"),
+], ['|V1|'])
+mutant('V4-AF-under-DS', ['C16'], [
+    (T, """            let mut dep = self.affect_txs[dep_id].lock();
+            let mut dep_state = self.dependent_state[dep_id].lock();
+            let mut state = self.dependent_state[txid].lock();""", """            let mut dep_state = self.dependent_state[dep_id].lock();
+            let mut state = self.dependent_state[txid].lock();
+            let mut dep = self.affect_txs[dep_id].lock();"""),
+], ['|V4|'])
+mutant('X5-handoff-dropped-in-execute_task', ['C16'], [
+    (S, "            drop(tx_state);\n            return self.execution_task(next);", "            drop(tx_state);\n            let _ = next;\n            return None;"),
+], ['|X5|'])
+benign('B-dep-keep-stale-edges', ['C16'], [
+    (T, "        affects.clear();\n", ""),
+])
+benign('B-dep-always-rewind-in-commit', ['C16'], [
+    (T, """            if state.onboard {
+                state.dependency = None;
+                self.index.fetch_min(next, Ordering::Relaxed);
+            }""", """            if state.onboard {
+                state.dependency = None;
+            }
+            self.index.fetch_min(next, Ordering::Relaxed);"""),
+])
+
+CX = 'src/scheduler/context.rs'
+CU = 'src/scheduler/cursor.rs'
+CT = 'src/scheduler/control.rs'
+W = 'src/scheduler/wait.rs'
+mutant('A1-logical-clock-relaxed-in-rewind', ['C15', 'C02'], [
+    (CX, "let timestamp = self.logical_clock.fetch_add(1, Ordering::AcqRel);", "let timestamp = self.logical_clock.fetch_add(1, Ordering::Relaxed);"),
+], ['|A1|'])
+mutant('A2-logical-clock-release-only-in-timestamp', ['C15'], [
+    (CX, "    pub(super) fn logical_timestamp(&self) -> usize {\n        self.logical_clock.fetch_add(1, Ordering::AcqRel)", "    pub(super) fn logical_timestamp(&self) -> usize {\n        self.logical_clock.fetch_add(1, Ordering::Release)"),
+], ['|A2|'])
+mutant('A3-published-cursor-relaxed-store', ['C15'], [
+    (CU, "self.0.store(value, Ordering::Release);", "self.0.store(value, Ordering::Relaxed);"),
+], ['|A3'])
+mutant('A4-published-cursor-relaxed-load', ['C15'], [
+    (CU, "    pub(super) fn get(&self) -> usize {\n        self.0.load(Ordering::Acquire)\n    }\n\n    #[inline]\n    pub(super) fn publish", "    pub(super) fn get(&self) -> usize {\n        self.0.load(Ordering::Relaxed)\n    }\n\n    #[inline]\n    pub(super) fn publish"),
+], ['|A4|'])
+mutant('A6-store-for-fetch_min-in-rewind', ['C15'], [
+    (CU, "        self.0.fetch_min(value, Ordering::AcqRel)", "        let previous = self.0.load(Ordering::Acquire);\n        self.0.store(value.min(previous), Ordering::Release);\n        previous"),
+], ['|A6|'])
+mutant('A6-lower-timestamp-store', ['C15'], [
+    (CX, "self.lower_timestamps[index].fetch_max(timestamp, Ordering::AcqRel);", "self.lower_timestamps[index].store(timestamp, Ordering::Release);"),
+], ['|A6|', '|U2|'])
+mutant('U1-claim-returns-next', ['C15'], [
+    (CU, "            return Some(current);", "            return Some(current + 1);"),
+], ['|U1|'])
+mutant('U1-claim-limit-inclusive', ['C15'], [
+    (CU, "        if current >= limit {\n            return None;", "        if current > limit {\n            return None;"),
+], ['|U1|'])
+mutant('U2-rewind-uses-second-tick', ['C15'], [
+    (CX, "self.lower_timestamps[index].fetch_max(timestamp, Ordering::AcqRel);", "let _ = timestamp;\n        self.lower_timestamps[index].fetch_max(self.logical_clock.load(Ordering::Acquire), Ordering::AcqRel);"),
+], ['|U2|'])
+mutant('U3-publish-uses-stale-frontier', ['C15'], [
+    (CX, "        let frontier = self.frontier.load(Ordering::Acquire);\n        if index == frontier {\n            self.advance(frontier);", "        if index == frontier {\n            self.advance(frontier);"),
+], ['|U3|'])
+mutant('U3-validation-limit-ignores-frontier', ['C15'], [
+    (CX, "let validation_limit = executing_idx.min(self.execution_frontier.current());", "let validation_limit = executing_idx;"),
+], ['|U3|'])
+benign('B-swap-lower-and-cursor-rewind', ['C15', 'C02'], [
+    (CX, "        self.lower_timestamps[index].fetch_max(timestamp, Ordering::AcqRel);\n        let previous = self.validation.rewind(index);", "        let previous = self.validation.rewind(index);\n        self.lower_timestamps[index].fetch_max(timestamp, Ordering::AcqRel);"),
+])
+benign('B-weaken-non-table-orderings', ['C15', 'C02', 'C16'], [
+    (CX, "self.unconfirmed_timestamps[index].fetch_max(timestamp, Ordering::AcqRel);", "self.unconfirmed_timestamps[index].fetch_max(timestamp, Ordering::Relaxed);"),
+    (CX, "        self.lower_timestamps[index].load(Ordering::Acquire)", "        self.lower_timestamps[index].load(Ordering::Relaxed)"),
+    (CU, "        self.0.fetch_min(value, Ordering::AcqRel)", "        self.0.fetch_min(value, Ordering::Relaxed)"),
+])
+benign('B-strengthen-orderings', ['C15', 'C16'], [
+    (CU, "self.0.store(value, Ordering::Release);", "self.0.store(value, Ordering::SeqCst);"),
+    ('src/tx_dependency.rs', "                self.index.fetch_min(next, Ordering::Relaxed);", "                self.index.fetch_min(next, Ordering::SeqCst);"),
+])
+mutant('O2-weak-cas-in-run_once', ['C14'], [
+    (CT, "self.started.compare_exchange(false, true, Ordering::Relaxed, Ordering::Relaxed)", "self.started.compare_exchange_weak(false, true, Ordering::Relaxed, Ordering::Relaxed)"),
+], ['|O2|'])
+mutant('O2-load-then-store-in-run_once', ['C14'], [
+    (CT, "self.started.compare_exchange(false, true, Ordering::Relaxed, Ordering::Relaxed).map_err(", "(if self.started.load(Ordering::Relaxed) { Err(true) } else { self.started.store(true, Ordering::Relaxed); Ok(false) }).map_err("),
+], ['|O2|', '|O3|'])
+mutant('O1-public-entry-bypasses-run_once', ['C14'], [
+    ('src/scheduler/fallback.rs', "        self.run_once(|_| self.replay_uncommitted_suffix(CommittedPrefixEnd::ZERO))", "        self.replay_uncommitted_suffix(CommittedPrefixEnd::ZERO)"),
+], ['|O1|'])
+mutant('O3-started-reset-after-run', ['C14'], [
+    (CT, "        self.metrics.report();\n        result", "        self.metrics.report();\n        if result.is_err() {\n            self.started.store(false, Ordering::Relaxed);\n        }\n        result"),
+], ['|O2|', '|O3|'])
+mutant('W1-park-without-second-check', ['C17'], [
+    (W, "        thread::yield_now();\n        if blocked() {\n            thread::park_timeout(timeout);\n        }", "        thread::yield_now();\n        thread::park_timeout(timeout);"),
+], ['|W1|'])
+mutant('W2-validate-notifies-before-publish', ['C17'], [
+    (S, "        // update transaction status\n        tx_state.status = if conflict {", "        if txid == self.scheduler_ctx.finality_idx() {\n            self.finality_wait.notify();\n        }\n        tx_state.status = if conflict {"),
+    (S, "        drop(tx_state);\n        if txid == self.scheduler_ctx.finality_idx() {\n            self.finality_wait.notify();\n        }\n        None", "        drop(tx_state);\n        None"),
+], ['|W2|', '|W3|'])
+mutant('W3-finality-second-notify-removed', ['C17'], [
+    (S, "                if finality_idx - previous_finality_idx > 1 {\n                    // Commit may have caught the first notification while this batch was still\n                    // publishing. Wake it once more for the completed suffix.\n                    self.commit_wait.notify();\n                }\n", ""),
+], ['|W3|'])
+mutant('W3-finality-first-notify-removed', ['C17'], [
+    (S, "                if finality_idx == previous_finality_idx {\n                    // Start commit as soon as the first transaction in this batch is visible.\n                    self.commit_wait.notify();\n                }\n", ""),
+], ['|W3|'])
+mutant('L5-cancel-notifies-before-flag', ['C17'], [
+    (CT, "        self.abort.store(true, Ordering::Release);\n        self.finality_wait.notify();\n        self.commit_wait.notify();", "        self.finality_wait.notify();\n        self.commit_wait.notify();\n        self.abort.store(true, Ordering::Release);"),
+], ['|L5|'])
+mutant('W1-commit-loop-waits-on-finality-slot', ['C17'], [
+    (S, "                self.commit_wait.wait_while(STALL_TIMEOUT, || {", "                self.finality_wait.wait_while(STALL_TIMEOUT, || {"),
+], ['|W1|'])
+benign('B-unconditional-notify-in-validate', ['C17'], [
+    (S, "        if txid == self.scheduler_ctx.finality_idx() {\n            self.finality_wait.notify();\n        }\n        None", "        self.finality_wait.notify();\n        None"),
+])
+benign('B-single-predicate-check', ['C17'], [
+    (W, "        if !blocked() {\n            return;\n        }\n\n        // Most scheduler stalls close within one worker timeslice.\n        thread::yield_now();\n        if blocked() {", "        if blocked() {"),
+])
